@@ -831,10 +831,18 @@ class Inliner(object):
     # (nothing in the spliced body can change the caller's variable); other arguments are bound to a fresh name first
     subst = {}
     kept = []
+    stored_attrs = {x.attr for x in ast.walk(node) if isinstance(x, ast.Attribute) and isinstance(x.ctx, (ast.Store, ast.Del))}
     for p, a in binds:
       if p not in stored and isinstance(a, ast.Name):
         rename[p] = a.id
       elif p not in stored and isinstance(a, ast.Constant):
+        subst[p] = a
+        rename.pop(p, None)
+      elif p not in stored and isinstance(a, ast.Attribute) and isinstance(a.value, ast.Name) and a.value.id in ('self', 'cls') and \
+          a.attr not in stored_attrs and callee.cls is None and \
+          sum(1 for x in walk_no_nested(node, include_self=False) if isinstance(x, ast.Name) and x.id == p) <= 2 and \
+          any(isinstance(x, ast.Call) and isinstance(x.func, ast.Name) and x.func.id == p for x in ast.walk(node)):
+        # a bound method handed to a module-level helper as a callback and only called there: written where it is called
         subst[p] = a
         rename.pop(p, None)
       else:
@@ -854,7 +862,9 @@ class Inliner(object):
       class _Sub(ast.NodeTransformer):
         def visit_Name(self, n):
           if n.id in subst and isinstance(n.ctx, ast.Load):
-            return ast.copy_location(ast.Constant(value=subst[n.id].value), n)
+            if isinstance(subst[n.id], ast.Constant):
+              return ast.copy_location(ast.Constant(value=subst[n.id].value), n)
+            return ast.copy_location(_clone(subst[n.id]), n)
           return n
       new_body = [_Sub().visit(st) for st in new_body]
     if callee.name == '__call__' and isinstance(f, ast.Attribute) and isinstance(f.value, ast.Name) and f.value.id == 'self':
